@@ -123,6 +123,13 @@ package pcache
 //@   loop 1: invariant pcOK(pc) && held(pc.writeLock) && cinfo != nil && isfresh(cinfo) && rangeindex < len(pc.sources)
 //@   loop 2: invariant pcOK(pc) && held(pc.writeLock) && updates != nil && isfresh(updates)
 //@   loop 3: invariant pcOK(pc) && held(pc.writeLock) && updates != nil && isfresh(updates) && m != nil && isfresh(m)
+// publication (C06): the snapshot stored answers the provider looked up with the record returned; a merged
+// main map has, for every provider of the write map, the updated record if there is one, else the old one.
+//@   loop 3: invariant all(k, visitedkey(pc.write, k) ==> has(m, k) && m[k] == ite(has(updates, k), updates[k], read.m[k]))
+//@   loop 3: invariant has(pc.write, pid) && has(updates, pid) && updates[pid] == rpinfo
+//@   at call Store#1: assert has(arg1.u, pid) && arg1.u[pid] == rpinfo
+//@   at call Store#2: assert has(arg1.m, pid) && arg1.m[pid] == rpinfo
+//@   at call Store#2: assert all(k, has(pc.write, k) ==> has(arg1.m, k) && arg1.m[k] == ite(has(updates, k), updates[k], read.m[k]))
 
 // Readers (C07): one atomic load per operation; a key present in the loaded
 // snapshot is answered without touching the lock or any source.
